@@ -16,6 +16,7 @@ import (
 
 	"github.com/hashicorp/go-hclog"
 	"github.com/jimlambrt/gldap"
+	"github.com/jimlambrt/gldap/testdirectory"
 )
 
 func init() {
@@ -163,4 +164,46 @@ func classifyAddr(addr string) (string, string) {
 		return "wellformed", net.JoinHostPort(host, port)
 	}
 	return "malformed", ""
+}
+
+// c17dirstart: the test directory is started on a port that is already in use.  The
+// server cannot listen, Ready never becomes true (C17) - so whoever waits for Ready needs
+// a way out: Start must report the failure through the testing.T it was given and return.
+func init() { runners["c17dirstart"] = runC17DirStart }
+
+func runC17DirStart(t *Toks) string {
+	_ = t
+	busy, err := net.Listen("tcp", "127.0.0.1:0")
+	if err != nil {
+		return "HARNESS-ERROR " + err.Error()
+	}
+	defer busy.Close()
+	port := busy.Addr().(*net.TCPAddr).Port
+	qt := &quietT{}
+	done := make(chan string, 1)
+	go func() {
+		defer func() {
+			if r := recover(); r != nil {
+				done <- "failnow"
+			}
+		}()
+		td := testdirectory.Start(qt, testdirectory.WithNoTLS(qt), testdirectory.WithHost(qt, "127.0.0.1"), testdirectory.WithPort(qt, port),
+			testdirectory.WithLogger(qt, hclog.New(&hclog.LoggerOptions{Level: hclog.Off})))
+		if td != nil {
+			td.Stop()
+		}
+		done <- "returned"
+	}()
+	select {
+	case how := <-done:
+		qt.mu.Lock()
+		failed := qt.failed
+		qt.mu.Unlock()
+		if !failed {
+			return "SPECFAIL Start " + how + " on a port in use without reporting a failure to the test"
+		}
+		return "OK Start " + how + " and reported the failure"
+	case <-time.After(3 * time.Second):
+		return "SPECFAIL Start did not return within 3 s on a port that is already in use (it waits for Ready, which never becomes true)"
+	}
 }
